@@ -231,6 +231,9 @@ type ReplayFile struct {
 
 // workerOut is what one worker process reports to the driver.
 type workerOut struct {
+	Unreproduced       int    `json:"unreproduced"`
+	UnreproducedSample string `json:"unreproduced_sample,omitempty"`
+
 	Property   string             `json:"property"`
 	Worker     int                `json:"worker"`
 	Runs       int                `json:"runs"`
@@ -430,6 +433,21 @@ func Worker(t *testing.T) {
 			}
 
 			rf := shrinkAndDescribe(t, prop, sc, res, tier)
+
+			// the run failed, but running the very same tape again in this process does not: the failure depended on
+			// state outside the run (code under test that keeps something between calls). Not reportable as a replay of
+			// one run; leave the fingerprint open so that an occurrence that does replay can still be found.
+			if rf.Violation == nil {
+				out.Unreproduced++
+				out.UnreproducedSample = fmt.Sprintf("seed %d %s: %s", seed, fp, simkit.FirstLine(res.Viol.Detail))
+
+				if out.Unreproduced < 6 {
+					delete(seenFP, fp)
+				}
+
+				continue
+			}
+
 			out.Violations = append(out.Violations, rf)
 
 			if replayDir != "" {
@@ -438,6 +456,21 @@ func Worker(t *testing.T) {
 				_ = os.MkdirAll(replayDir, 0o755)
 				_ = os.WriteFile(p, b, 0o644)
 				out.Replays = append(out.Replays, p)
+
+				// the unminimised tape as a fallback: shrinking runs inside this process, and code under test that keeps
+				// state between calls (a buffer pool, a cache) can make a shrunk tape "fail" only because of what earlier
+				// attempts left behind; the driver falls back to this file when the minimised one does not reproduce
+				vals := make([]uint32, len(res.Tape))
+				for i, d := range res.Tape {
+					vals[i] = d.V
+				}
+
+				if o := execRun(t, prop, sc, res.Seed, vals, tier, true); o.Viol != nil && o.Viol.Fingerprint == rf.Fingerprint {
+					orf := &ReplayFile{Property: o.Viol.Property, Oracle: o.Viol.Oracle, Fingerprint: o.Viol.Fingerprint, World: sc.World, Scenario: sc.Name, Seed: res.Seed,
+						HarnessVersion: HarnessVersion, Tier: tier, Tape: o.Tape, OriginalLen: len(vals), Trace: o.Trace, Violation: o.Viol, TraceHash: o.TraceHash}
+					ob, _ := json.MarshalIndent(orf, "", " ")
+					_ = os.WriteFile(strings.TrimSuffix(p, ".json")+".orig.json", ob, 0o644)
+				}
 			}
 
 			if len(seenFP) >= 6 {
